@@ -89,6 +89,20 @@ def run_cases(args):
                 if 0 <= ln < n:
                     plant("truncate", rel, lambda p, ln=ln: p.write_bytes(p.read_bytes()[:ln]), {"file_kind": fk, "length": ln})
             plant("extend", rel, lambda p: p.write_bytes(p.read_bytes() + b"\x00"), {"file_kind": fk})
+            if n:
+                # a byte replaced by an arbitrary other value, a byte inserted / removed in the middle
+                o = rng.randrange(n); nv = (data[o] + rng.randrange(1, 256)) % 256
+                plant("substitute", rel, lambda p, o=o, nv=nv: p.write_bytes(data[:o] + bytes([nv]) + data[o + 1:]), {"file_kind": fk, "offset": o})
+                o2 = rng.randrange(n)
+                plant("insert-byte", rel, lambda p, o2=o2: p.write_bytes(data[:o2] + bytes([rng.randrange(256)]) + data[o2:]), {"file_kind": fk, "offset": o2})
+                plant("delete-byte", rel, lambda p, o2=o2: p.write_bytes(data[:o2] + data[o2 + 1:]), {"file_kind": fk, "offset": o2})
+            # line terminators only: LF -> CR (same length), CR inserted before an LF, LF -> CRLF everywhere
+            lfs = [i for i, b in enumerate(data) if b == 0x0A]
+            if lfs:
+                o3 = rng.choice(lfs)
+                plant("lf-to-cr", rel, lambda p, o3=o3: p.write_bytes(data[:o3] + b"\r" + data[o3 + 1:]), {"file_kind": fk, "offset": o3})
+                plant("insert-cr", rel, lambda p, o3=o3: p.write_bytes(data[:o3] + b"\r" + data[o3:]), {"file_kind": fk, "offset": o3})
+                plant("all-crlf", rel, lambda p: p.write_bytes(data.replace(b"\n", b"\r\n")), {"file_kind": fk})
             plant("delete", rel, lambda p: p.unlink(), {"file_kind": fk})
             sibs = [r for r, k in files if k == fk and r != rel and (root / r).read_bytes() != data]
             if sibs:
